@@ -115,12 +115,18 @@ theorem mount_chain_order :
        "range _3 {", "if _4 {", "_1 = append(_1, _5)", "}", "}",
        "_6 := _7.addRouteInternal(_8.Method(), _9, _1)"] := by decide
 
-/-- the tree path of `Mount` (sub-router warmed up earlier) prepends the mount chain to the node's registered slice —
-    which already starts with the sub-router's middleware: this is where finding K02b lives
-    (`warmed_mount_doubles_witness`); a repair changes this list -/
-theorem mount_tree_path_as_recorded :
-    router_extractAndMount.take 6 =
-      ["_1 := _2.handlers", "if len(_1) > 0 && _3 != \"\" {", "_4 := make([]HandlerFunc, 0, len(_5)+len(_1))",
-       "_4 = append(_4, _5...)", "_4 = append(_4, _1...)", "_6 := _7.addRouteInternal(_8, _9, _4)"] := by decide
+/-- `Mount` after the K02b fix (`Compose.mountOp` folds over `RouterSt.objs`): every route created on a router is
+    logged — before the decision "register now / defer" —, the log only grows, and `mergeSubrouterRoutes` mounts
+    exactly the logged routes through `mountRoute` (no reading back from the sub-router's trees) -/
+theorem mount_from_route_objects :
+    router_mergeSubrouterRoutes =
+      ["if _1.routeLog != nil {", "_2 = make([]*route.Route, 0, len(_1.routeLog.routes))",
+       "_2 = append(_2, _1.routeLog.routes...)", "}", "range _2 {", "_3.mountRoute(_4, _5, _6, _7)", "}"] ∧
+    router_enqueueRoute =
+      ["_1.logRoute(_2)", "if _1.warmedUp {", "_2.RegisterRoute()", "}", "else {",
+       "_1.pendingRoutes = append(_1.pendingRoutes, _2)", "}"] ∧
+    router_logRoute =
+      ["if _1.routeLog == nil {", "_1.routeLog = &routeLog{}", "}", "_1.routeLog.routes = append(_1.routeLog.routes, _2)"] := by
+  decide
 
 end Rivaas.Tie.C02Chain
